@@ -56,13 +56,13 @@ func (dm *DMap) fragmentMergeFunction(f *fragment, hkey uint64, entry storage.En
 }
 
 func (dm *DMap) mergeFragments(part *partitions.Partition, fp *fragmentPack) error {
-	f, err := dm.loadOrCreateFragment(part)
+	// Acquire fragment's lock. No one should work on it. The janitor may close and remove an
+	// empty fragment while we wait for its lock: take the current one then, otherwise the
+	// entries are imported into a detached fragment and the sender drops its table.
+	f, err := dm.loadOrCreateFragmentForWrite(part)
 	if err != nil {
 		return err
 	}
-
-	// Acquire fragment's lock. No one should work on it.
-	f.Lock()
 	defer f.Unlock()
 
 	if err := verifhook.Fire("merge.begin", dm.s.rt.This().String(), part.ID()); err != nil {
